@@ -33,6 +33,7 @@ def check(ctx):
     hash_contract(ctx, pkg, "R2")
     _r3(ctx, pkg)
     _r4(ctx, pkg)
+    _r4_callers(ctx, pkg)
 
 
 def _r1(ctx, pkg):
@@ -207,7 +208,67 @@ def _r4(ctx, pkg, rule="R4"):
               expected="[r for idx, r in enumerate(self.reaction_list) if idx not in reaction]", found=found)
 
 
+def _r4_callers(ctx, pkg, rule="R4"):
+    """De-duplication removes the LATER copies: callers hand remove_reaction the position list of find_duplicate_reaction,
+    not the duplicate objects (removal by object is removal by equality, which also removes the copy to keep)."""
+    fd = pkg.method("Network", "find_duplicate_reaction")
+    rets = [n for n in ast.walk(fd) if isinstance(n, ast.Return) and isinstance(n.value, ast.Tuple)]
+    idxvars = set()
+    for n in ast.walk(fd):
+        if isinstance(n, ast.For) and isinstance(n.iter, ast.Call) and ast.unparse(n.iter.func) == "enumerate" and isinstance(n.target, ast.Tuple) and isinstance(n.target.elts[0], ast.Name):
+            idxvars.add(n.target.elts[0].id)
+    pos = set()
+    if len(rets) == 1:
+        for i, e in enumerate(rets[0].value.elts):
+            if isinstance(e, ast.Name):
+                for n in ast.walk(fd):
+                    if isinstance(n, ast.Call) and isinstance(n.func, ast.Attribute) and n.func.attr == "append" and ast.unparse(n.func.value) == e.id \
+                            and n.args and isinstance(n.args[0], ast.Name) and n.args[0].id in idxvars:
+                        pos.add(i)
+    if len(pos) != 1:
+        ctx.unrec(rule, "find_duplicate_reaction:position list", (NF, fd.lineno), f"cannot tell which element of the returned tuple is the list of positions ({sorted(pos)})")
+        return
+    (ipos,) = pos
+    n = 0
+    for f in pkg.files:
+        if not f.endswith(".py") or f.startswith("naunet/examples/"):
+            continue
+        for fn in ast.walk(pkg.modules[f]):
+            if not isinstance(fn, (ast.FunctionDef, ast.AsyncFunctionDef)):
+                continue
+            names = {}
+            for st in ast.walk(fn):
+                if isinstance(st, ast.Assign) and isinstance(st.value, ast.Call) and isinstance(st.value.func, ast.Attribute) and st.value.func.attr == "find_duplicate_reaction":
+                    t = st.targets[0]
+                    if isinstance(t, ast.Tuple):
+                        for i, e in enumerate(t.elts):
+                            if isinstance(e, ast.Name) and e.id != "_":
+                                names[e.id] = i
+                    elif isinstance(t, ast.Name):
+                        names[t.id] = None
+            for c in ast.walk(fn):
+                if isinstance(c, ast.Call) and isinstance(c.func, ast.Attribute) and c.func.attr == "remove_reaction" and c.args:
+                    a = c.args[0]
+                    got = None
+                    if isinstance(a, ast.Name) and a.id in names:
+                        got = names[a.id]
+                    elif isinstance(a, ast.Subscript) and isinstance(a.value, ast.Name) and names.get(a.value.id, 0) is None and isinstance(a.slice, ast.Constant):
+                        got = a.slice.value
+                    elif isinstance(a, ast.Subscript) and isinstance(a.value, ast.Call) and isinstance(a.value.func, ast.Attribute) and a.value.func.attr == "find_duplicate_reaction" \
+                            and isinstance(a.slice, ast.Constant):
+                        got = a.slice.value
+                    else:
+                        continue
+                    n += 1
+                    ctx.check(got == ipos, rule, f"{f.rsplit('/', 1)[1]}:{fn.name}:remove_reaction(duplicates)", (f, c.lineno),
+                              "the positions of the later copies are removed" if got == ipos else
+                              "the duplicate OBJECTS (or the first occurrences) are passed to remove_reaction, which removes every reaction EQUAL to them -- the copy to keep is removed too",
+                              expected=f"element {ipos} of find_duplicate_reaction() (the position list)", found=f"element {got}: {ast.unparse(c)[:80]}")
+    ctx.floor(rule, "callers removing duplicates", n, 1)
+
+
 MUTANTS = [
+    {"name": "extend-removes-dupes-by-object", "file": "naunet/console/commands/extend.py", "old": "            _, dupidx, _ = net.find_duplicate_reaction()\n            net.remove_reaction(dupidx)", "new": "            dupes, _, _ = net.find_duplicate_reaction()\n            net.remove_reaction(dupes)", "rules": ["R4"]},
     {"name": "hash-reads-temp-min", "file": RF, "old": "                frozenset(Counter(self.products).items()),\n", "new": "                frozenset(Counter(self.products).items()),\n                self.alpha,\n", "rules": ["R1"]},
     {"name": "hash-sorted-by-name", "file": RF, "old": "        return hash(\n            (\n                frozenset(Counter(self.reactants).items()),\n                frozenset(Counter(self.products).items()),\n            )\n        )\n", "new": "        return hash(tuple([*sorted(self.reactants), *sorted(self.products)]))\n", "rules": ["R1"]},
     {"name": "store-outside-if", "file": NF, "old": "            if chk not in seen:\n                seen[chk] = [idx]\n            else:", "new": "            seen[chk] = [idx]\n            if chk in seen:\n                pass\n            else:", "rules": ["R3"]},
